@@ -10,6 +10,8 @@ import WhVerif.Lemmas.C01InputSort
 import WhVerif.Lemmas.C01CkptMain
 import WhVerif.Lemmas.C01U32
 import WhVerif.Model.C01Query
+import WhVerif.Lemmas.C01PedApi
+import WhVerif.Lemmas.C01PedPart
 /-!
 # C01 — property theorems (about the model `WhVerif.C01` of `PedigreeDPTable`)
 
@@ -665,5 +667,94 @@ example : ∀ T, mkTable exampleLong = some T → ∀ qs c β sr τ, Answer.cost
     Answer.partitioning β ∈ (T.run exampleLong qs).2 → Answer.superReads sr τ ∈ (T.run exampleLong qs).2 →
     totalCost exampleLong β τ = some c :=
   fun T hT qs c β sr τ hc hβ hs => (queries_witness_optimal exampleLong exampleLong_wf T hT qs c β sr τ hc hβ hs).2.1
+
+/-! ## Round 10: the pedigree glue (`Pedigree`, `PedigreePartitions`, API resolution) and `cost += double` -/
+
+/-- **id ↔ index**: on every `Pedigree` object reachable by API calls, an accessor by id is the accessor by index at
+`id_to_index id`; a map entry points to an individual carrying that id (the LAST one added with it); with pairwise
+distinct ids `id_to_index` inverts `index_to_id`; triples hold indices of existing individuals -/
+theorem id_index_bijection (ops : List PedOp) (P : Ped) (h : Ped.run ops {} = some P) :
+    (∀ id v, P.genotypeById id v = (P.idToIndex id).bind (fun i => P.genotype i v)) ∧
+    (∀ id v, P.glById id v = (P.idToIndex id).bind (fun i => P.gl i v)) ∧
+    (∀ id i, P.idToIndex id = some i → P.indexToId i = some id) ∧
+    (∀ id i j, P.idToIndex id = some i → P.indexToId j = some id → j ≤ i) ∧
+    (P.ids.Nodup → ∀ i id, P.indexToId i = some id → P.idToIndex id = some i) ∧
+    (∀ tr ∈ P.triples, tr.1 < P.size ∧ tr.2.1 < P.size ∧ tr.2.2 < P.size) := by
+  have hI := PedInv.run ops {} P PedInv.empty h
+  exact ⟨fun _ _ => rfl, fun _ _ => rfl, hI.sound, hI.last, fun hnd i id => hI.index_of_id hnd i id, hI.members⟩
+
+example : (Ped.run [.addInd 7 [1] [none], .addInd 3 [0] [none], .addInd 5 [2] [none], .addRel 5 7 3] {}).map
+    (fun P => (P.ids, P.triples, P.idToIndex 5, P.genotypeById 5 0)) =
+    some ([7, 3, 5], [(2, 0, 1)], some 2, some 2) := by decide
+
+/-- **the recursion of `PedigreePartitions` terminates (depth ≤ #individuals + 1) and computes the partition map of
+the solver model**, for pedigrees of any depth and any order of individuals / relationships -/
+theorem partitions_recursion_terminates (I : Inst) (hok : WhVerif.C05.Solver.PedOK I) (t : Nat) :
+    ppMapOf I.nind I.trios t = some (h2pMap I t) := ppMapOf_eq_h2pMap I hok t
+
+/-- **well-formed partitions** (partial: the bound `< 2·founders` and the founder values `(2k, 2k+1)` are not proved
+here; full statement in notes/C01.md): every individual gets its two partitions; a child's haplotype 0 lies in the
+father's partition selected by bit `2k` of the transmission value, its haplotype 1 in the mother's selected by bit
+`2k+1`, `k` = index of its triple; a founder's partitions do not depend on the transmission value -/
+theorem partitions_wellformed_partial (I : Inst) (hok : WhVerif.C05.Solver.PedOK I) (t : Nat) :
+    ∃ pm, ppMapOf I.nind I.trios t = some pm ∧ pm.length = I.nind ∧
+      (∀ i, i < I.nind → ∃ p, pm.getD i none = some p) ∧
+      (∀ k f mo i pf pmo, I.trios[k]? = some (f, mo, i) → pm.getD f none = some pf → pm.getD mo none = some pmo →
+        pm.getD i none = some (sel pf (bitOf t (2 * k)), sel pmo (bitOf t (2 * k + 1)))) ∧
+      (∀ i p, (h2pRoots I).getD i none = some p → pm.getD i none = some p) := by
+  have hM := h2pMap_final I hok t
+  exact ⟨_, ppMapOf_eq_h2pMap I hok t, hM.len, hM.total, hM.child, hM.roots⟩
+
+/-- a pedigree in which an individual is its own father: the recursion never returns, whatever the depth allowed -/
+theorem partitions_self_parent_diverges (t mo fuel : Nat) :
+    ppRec [(0, mo, 0)] [some 0] t fuel 0 [none] = none := by
+  induction fuel with
+  | zero => rfl
+  | succ fuel ih => unfold ppRec; simp [ih]
+
+/-- **`cost += gls->get(genotype)`**: the running `unsigned` cost after adding the likelihood `n/den` is the cost plus
+the FLOOR of the likelihood -/
+theorem likelihood_addition_truncates (den c n : Nat) (h : 0 < den) : addTrunc den c n = c + n / den :=
+  addTrunc_eq den c n h
+
+/-- for integral likelihood values nothing is lost: the modelled sum is the exact sum -/
+theorem integral_likelihoods_exact (den c m : Nat) (h : 0 < den) : addTrunc den c (den * m) = c + m :=
+  addTrunc_integral den c m h
+
+/-- what is lost otherwise: two individuals with likelihood 0.75 each cost 0 for the solver, exactly 1.5; an
+alternative costing exactly 1 (1.0 + 0.0) costs 1 for the solver — the solver prefers the dearer one -/
+theorem fractional_truncation_witness :
+    addTrunc 4 (addTrunc 4 0 3) 3 = 0 ∧ addTrunc 4 (addTrunc 4 0 4) 0 = 1 ∧ (3 + 3 : Nat) > 4 + 0 := by decide
+
+/-- **optimality at the API level**: whenever the constructor returns an object for what the Python API passes
+(Pedigree calls by id, reads with sample ids, recombination costs), the DP value is the true minimum of the
+(Ped)MEC objective of the resolved instance (likelihoods floored per individual) -/
+theorem dp_optimal_pedigree_api (A : Api) (P : Ped) (I : Inst) (h : A.resolve = some (P, I)) :
+    dpCost I = optCost I ∧ I.nind = P.size ∧ I.trios = P.triples := by
+  unfold Api.resolve at h
+  split at h
+  · cases h
+  · rename_i P' hP
+    split at h
+    · cases h
+    · rename_i raws hraws
+      simp only at h
+      split at h
+      · cases h
+      · split at h
+        · cases h
+        · split at h
+          · cases h
+          · split at h
+            · cases h
+            · cases hm : mkInst (A.positions.getD (defaultPositions raws)) raws P'.size P'.triples
+                  (P'.genoTable A.den A.distrust (A.positions.getD (defaultPositions raws)).length) A.recomb with
+              | none => rw [hm] at h; cases h
+              | some J =>
+                rw [hm] at h
+                simp only [Option.map_some, Option.some.injEq, Prod.mk.injEq] at h
+                obtain ⟨rfl, rfl⟩ := h
+                have hs := WhVerif.C01.mkInst_some hm
+                exact ⟨dp_optimal_raw _ _ _ _ _ _ _ hm, hs.2.2.2.1, hs.2.2.2.2.1⟩
 
 end WhVerif.Props.C01
